@@ -87,15 +87,23 @@ func UnlockEnvelope(
 		// Extract shares from the grant, deduplicating by ID.
 		g := group.Ristretto255
 		for _, s := range inner.GetShares() {
-			idKey := hex.EncodeToString(s.GetId())
-			if _, dup := seen[idKey]; dup {
-				continue
-			}
-
 			id := g.NewScalar()
 			if err := id.UnmarshalBinary(s.GetId()); err != nil {
 				continue
 			}
+
+			// Deduplicate on the canonical encoding of the ID: scalars are
+			// reduced when decoded, so different byte strings can be the same
+			// ID, and secretsharing.Recover panics on duplicate IDs.
+			idBytes, err := id.MarshalBinary()
+			if err != nil {
+				continue
+			}
+			idKey := hex.EncodeToString(idBytes)
+			if _, dup := seen[idKey]; dup {
+				continue
+			}
+
 			val := g.NewScalar()
 			if err := val.UnmarshalBinary(s.GetValue()); err != nil {
 				continue
